@@ -235,7 +235,9 @@ CLAIMED = {
     "C18": dict(
         text="Coq theorems over the model of post.ApplyDefaults on the schemata bookkeeping of a result: a member is added exactly when it "
              "is absent and a schema recorded for (object, member) declares a default, the value is the first such default, it is added "
-             "once, present members keep key and value, nothing else appears; the (object, member) records survive every merge variant. "
+             "once, present members keep key and value, nothing else appears; the (object, member) records survive every merge variant; the same at "
+             "every nesting level with no bound on depth (Schema/PostTree.v: recursion equations, fuel immaterial; the instance is the result with "
+             "appended members taken away). "
              "Tie: data after Validate + ApplyDefaults compared with the model on generated object schemas/instances; declarative oracle "
              "(properties / items / allOf / additionalProperties reading of the schema) on valid cases without alternatives.",
         note=TB + "No axioms. That the records equal the declaratively applicable schemas through every keyword is checked by the oracle "
@@ -244,7 +246,8 @@ CLAIMED = {
         ref="DESIGN.md 5/C18"),
     "C19": dict(
         text="Coq theorems over the model of post.Prune: after pruning, the members of an object are exactly those with a recorded schema, "
-             "in order; a member remains iff it was present and described; records are created by mergeForField and survive merges. "
+             "in order; a member remains iff it was present and described; records are created by mergeForField and survive merges; at every "
+             "nesting level (Schema/PostTree.v): pruning only removes members, never deepens a value, and is idempotent for a given result. "
              "Tie: data after Validate + Prune compared with the model; oracle: pruning only removes, removes exactly the undescribed "
              "members on the class without alternatives, and pruning the pruned data again removes nothing (no anyOf/oneOf).",
         note=TB + "No axioms. Idempotence across a second validation is checked on the implementation, not proved.",
